@@ -9,7 +9,10 @@ from . import common
 from .common import do_arith, CMP_OPS, LOG_OPS, ARITH_VALUES
 from .c06 import cmp_expected
 
-RULE = ("exhaustive: every slice with start, stop in {None, -7..7} and step in {None, +-1, +-2, +-3, +-7} on vectors of length 0-5, every "
+from . import recompute
+
+RULE = ("[plus the shared recompute-after-history monitor: this property's operations evaluated on long-lived objects between in-place writes / renames must equal the same operations on fresh objects rebuilt from the current contents] "
+	"exhaustive: every slice with start, stop in {None, -7..7} and step in {None, +-1, +-2, +-3, +-7} on vectors of length 0-5, every "
 	"integer index -7..7, every boolean mask of length n and n+-1 for n<=5 (as Vector and as list) are applied to the real Vector and "
 	"compared with the same operation on list(v), including name and dtype kind; comparisons / logical operators over dtype pairs must give "
 	"non-nullable bool vectors equal to Python's elementwise comparison; tables of 0-4 rows x 1-4 columns: row slices and masks apply to "
@@ -22,7 +25,7 @@ ASSUMPTIONS = [
 ]
 EXHAUSTIVE = {"flag": True, "scope": "all slices / indices / masks in the stated ranges on lengths 0..5 (element values sampled)"}
 ANCHOR_FUNCS = ["vector:Vector.__getitem__", "vector:Vector._elementwise_compare", "table:Table.__getitem__", "vector:Vector.copy"]
-REQUIRED_STRATA = {"slice": 10000, "index": 60, "mask": 200, "compare": 300, "table-rows": 200, "table-commute": 200, "table-missing": 20}
+REQUIRED_STRATA = {"recompute": 200, "slice": 10000, "index": 60, "mask": 200, "compare": 300, "table-rows": 200, "table-commute": 200, "table-missing": 20}
 
 STARTS = [None] + list(range(-7, 8))
 STEPS = [None, 1, -1, 2, -2, 3, -3, 7, -7]
@@ -246,6 +249,7 @@ def run_table_missing(chk, spec):
 
 RUNNERS = {"index": run_index, "slice": run_slice, "mask": run_mask, "compare": run_compare, "table_rows": run_table_rows,
 	"table_commute": run_table_commute, "table_missing": run_table_missing}
+RUNNERS["recompute"] = recompute.runner("C07")
 
 CMP_PAIRS = [("int", "int"), ("int", "float"), ("float", "int"), ("bool", "int"), ("float", "float"), ("str", "str"), ("date", "date"),
 	("datetime", "datetime"), ("bytes", "bytes"), ("complex", "complex"), ("int", "str"), ("bool", "bool"), ("timedelta", "timedelta"), ("tuple", "tuple")]
@@ -273,6 +277,7 @@ def gen_rows(rng, n, allow_wrong=False):
 
 
 def run(chk):
+	recompute.add_cases(chk, "C07")
 	rng = chk.rng
 	kinds = ["int", "float", "str", "bool", "date", "complex", "bytes", "datetime"]
 	idx = 0
